@@ -805,6 +805,56 @@ struct World
                 obKind[N(0)] = kind;
             }
         }
+        else if (op == "OSHORT")
+        {
+            // a typed payload object over ANY raw bytes, also fewer than its header (like a moved-from or truncated object)
+            Bytes c(B(0));
+            c.shrink_to_fit();
+            int kind = static_cast<int>(N(1));
+            ob[N(0)] = makeTyped(kind, c.data(), c.size());
+            obKind[N(0)] = kind;
+        }
+        else if (op == "ODATASELF")
+        {
+            // setData with the object's own data pointer: in-place truncation to at most the current data length
+            if (!ob.count(N(0)) || !ob[N(0)])
+                return;
+            Payload* b = ob[N(0)].get();
+            int kind = obKind[N(0)];
+            size_t hdr = kind == kCan || kind == kCanFd ? 16 : kind == kLin ? 8 : kind == kEth ? 6 : kind == kAnalog ? 16 : 0;
+            if (!hdr || b->getLength() < hdr)
+                return;
+            size_t m = std::min(static_cast<size_t>(N(1)), b->getLength() - hdr);
+            const uint8_t* own = b->getRawPayload() + hdr;
+            switch (kind)
+            {
+                case kCan:
+                case kCanFd:
+                    static_cast<CanPayloadBase*>(b)->setData(own, static_cast<uint8_t>(m));
+                    break;
+                case kLin:
+                    static_cast<LinPayload*>(b)->setData(own, static_cast<uint8_t>(m));
+                    break;
+                case kEth:
+                    static_cast<EthernetPayload*>(b)->setData(own, static_cast<uint16_t>(m));
+                    break;
+                case kAnalog:
+                    static_cast<AnalogPayload*>(b)->setData(own, m);
+                    break;
+            }
+        }
+        else if (op == "SUPDSELF")
+        {
+            // the tracker is fed its OWN stored packet of (device, interface) again, by reference (a re-announce job)
+            auto di = st.getIndexByDeviceId(static_cast<uint16_t>(N(0)));
+            if (di < st.getDeviceStatusCount())
+            {
+                auto& ds = st.getDeviceStatus(di);
+                auto ii = ds.getIndexByInterfaceId(static_cast<uint32_t>(N(1)));
+                if (ii < ds.getInterfaceStatusCount())
+                    st.update(ds.getInterfaceStatus(ii).getPacket());
+            }
+        }
         else if (op == "OSET")
         {
             if (ob.count(N(0)) && ob[N(0)])
